@@ -6,9 +6,11 @@ C05 / C13 helper lemmas, part 3: the radio link between two network nodes.
   transmit role in between.
 * `L3Contracts` — what the node layer needs to know about six `RF24` methods, phrased on
   `DrvState` / `World` / `Radio` with the definitions of `Air.lean` (`Radio.receive`,
-  `Radio.packetFor`).  They are **hypotheses** of the closed-system theorems (the per-method driver
-  lemmas are C02/C03/C08's subject); each one was checked on executed examples
-  (`tools`-free: see MERGE_NOTES, "contract tests").
+  `Radio.packetFor`).  The closed-system lemmas take them as a hypothesis; they are **proved** about
+  the driver model in `NrfProofs/L3Discharge.lean` (`l3contracts : L3Contracts`, which imports this
+  file), and the property files close the theorems with it (`C05_*_closed*`, `C13_live_closed_partial`).
+  Executed examples: `tools/contract_tests_c05c13.lean`; the states that made three more conjuncts
+  of `NodeRadio` necessary: `tools/l3_counterexamples.lean`.
 * pure facts about `Radio.receive` / `World.radio` proved here.
 -/
 import NrfProofs.Hoare
@@ -27,7 +29,11 @@ structure LinkCfg where
 /-- Radio `r` with driver object `d` of a network node whose six pipe addresses (as the chip
     matches them) are `P`; `rx` = PRIM_RX (with pipe 0 on the node's own address when set), `ce` =
     the CE pin (listening = both; after `listen = False` neither; after a `send()` CE stays high in
-    the transmit role); `aa` = the auto-ack mask in force. -/
+    the transmit role); `aa` = the auto-ack mask in force.
+    The last three conjuncts are model-state invariants of every reachable radio that the driver
+    contracts need (found when `L3Contracts` was discharged, NrfProofs/L3Discharge.lean): CONFIG is a
+    7-bit register, TX_ADDR has five bytes, and the pipe numbers in the RX FIFO are pipe numbers
+    (STATUS has a 3-bit RX_P_NO field). -/
 def NodeRadio (L : LinkCfg) (P : List Bytes) (rx ce : Bool) (aa : Nat) (d : Rf24) (r : Radio) : Prop :=
   d.config = r.config ∧ r.config &&& 2 ≠ 0 ∧ decide (r.config &&& 1 ≠ 0) = rx ∧ r.ce = ce ∧
   r.config &&& 4 = L.crc ∧ r.rfCh = L.ch ∧ r.rfSetup = L.rfSetup ∧
@@ -36,7 +42,8 @@ def NodeRadio (L : LinkCfg) (P : List Bytes) (rx ce : Bool) (aa : Nat) (d : Rf24
   d.pipes0 = r.rxAddr0 ∧ r.rxAddr0.length = 5 ∧ d.pipe0ReadAddr = P[0]? ∧
   P.length = 6 ∧ (∀ a ∈ P, a.length = 5) ∧ (rx = true → some r.rxAddr0 = P[0]?) ∧
   (∀ p ∈ [1, 2, 3, 4, 5], some (r.rxAddr p) = P[p]?) ∧
-  d.txAddress.length = 5 ∧ r.txFifo = []
+  d.txAddress.length = 5 ∧ r.txFifo = [] ∧
+  r.config < 128 ∧ r.txAddr.length = 5 ∧ (∀ e ∈ r.rxFifo, e.pipe ≤ 5)
 
 instance (L : LinkCfg) (P : List Bytes) (rx ce : Bool) (aa : Nat) (d : Rf24) (r : Radio) :
     Decidable (NodeRadio L P rx ce aa d r) := by unfold NodeRadio; infer_instance
@@ -68,7 +75,7 @@ def DrvState.packet (s : DrvState) (buf : Bytes) : Packet :=
   s.radio.packetFor { kind := .payload, data := buf }
 
 /-- The contracts of the `RF24` methods the node layer calls on the unicast path (every state,
-    every link configuration and address set). -/
+    every link configuration and address set).  Proved: `l3contracts` (NrfProofs/L3Discharge.lean). -/
 structure L3Contracts : Prop where
   /-- `auto_ack = 0x3E | 0x3F`: programs EN_AA, nothing else -/
   setAA : ∀ (s : DrvState) (L : LinkCfg) (P : List Bytes) (rx ce : Bool) (aa v : Nat), s.Wf →
@@ -249,12 +256,18 @@ theorem Radio.receive_idle {L : LinkCfg} {P : List Bytes} {d : Rf24} {r : Radio}
     hbit, Bool.and_true, hfeat, Bool.false_eq_true]
   rfl
 
-/-- reception changes nothing the node-radio predicate looks at -/
+/-- reception changes nothing the node-radio predicate looks at, but the RX FIFO (whose entries
+    carry pipe numbers) -/
 theorem NodeRadio.of_eq_cfg {L : LinkCfg} {P : List Bytes} {rx ce : Bool} {aa : Nat} {d : Rf24} {r r' : Radio}
     (h : NodeRadio L P rx ce aa d r)
     (he : r' = { r with rxFifo := r'.rxFifo, flags := r'.flags, rpd := r'.rpd, lastRx := r'.lastRx,
-                        lastAck := r'.lastAck }) : NodeRadio L P rx ce aa d r' := by
-  rw [he]; exact h
+                        lastAck := r'.lastAck })
+    (hf : ∀ e ∈ r'.rxFifo, e.pipe ≤ 5) : NodeRadio L P rx ce aa d r' := by
+  obtain ⟨h1, h2, h3, h4, h5, h6, h7, h8, h9, h10, h11, h12, h13, h14, h15, h16, h17, h18, h19, h20, h21, h22,
+    h23, h24, h25, h26, h27, h28, _⟩ := h
+  rw [he]
+  exact ⟨h1, h2, h3, h4, h5, h6, h7, h8, h9, h10, h11, h12, h13, h14, h15, h16, h17, h18, h19, h20, h21, h22,
+    h23, h24, h25, h26, h27, h28, hf⟩
 
 /-- a listening node radio is in RX mode -/
 theorem NodeRadio.rxMode {L : LinkCfg} {P : List Bytes} {aa : Nat} {d : Rf24} {r : Radio}
